@@ -19,6 +19,7 @@
 #include <core/sync.h>
 #include <datatypes/msg_queue.h>
 #include <distributed/mpi.h>
+#include <log/stats.h>
 
 #include <memory.h>
 #include <stdatomic.h>
@@ -288,8 +289,13 @@ simtime_t gvt_phase_run(void)
 void gvt_msg_drain(void)
 {
 	VERIF_TRACE(VK_DRAIN_STAGE, 1, thread_phase, 0);
-	while(thread_phase != thread_phase_idle) // flush partial gvt algorithm
-		gvt_phase_run();
+	while(thread_phase != thread_phase_idle) { // flush partial gvt algorithm
+		simtime_t flushed_gvt = gvt_phase_run();
+		// the threads still in their main loop account this round in their statistics: do the same here,
+		// so that every thread and the node end up with the same number of per-GVT records
+		if(flushed_gvt >= 0.0)
+			stats_on_gvt(flushed_gvt);
+	}
 
 	VERIF_TRACE(VK_DRAIN_STAGE, 2, 0, 0);
 	if(sync_thread_barrier())
